@@ -2,7 +2,7 @@
 from props.common import *   # noqa
 
 MINE = {"bound-pid-rebound", "other-pid-references-changed", "result-class", "store-state:object-bytes-changed",
-        "model:bind", "store-state:pid-ref-garbled"}
+        "model:bind", "store-state:pid-ref-garbled", "bookkeeping-not-exact"}
 
 
 def menu_fn(w):
